@@ -9,6 +9,8 @@ for d in seeded/*/; do
 import json,sys
 r=json.load(sys.stdin)
 ch={k:v for k,v in r.items() if k.startswith('check_')}
+for k,v in ch.items():
+    if v['exit'] not in (0, 1): print('  harness output of', r['id'], k, ':', (v.get('tail') or '')[-400:].replace(chr(10), ' / '))
 print(r['id'], '| suite:', r.get('suite'), '| demo with/without:', r['demo_with_patch'], r['demo_without_patch'], '|', ' '.join('%s exit=%s %s' % (k[6:], v['exit'], ','.join(c[6:] for c in v['classes'])) for k,v in ch.items()))"
 done
 exit $rc
